@@ -298,10 +298,11 @@ class Report:
                 tb.append(f'{t}: ' + ('closed under the global context' if not ax else 'axioms ' + ', '.join(ax)))
             if proof.get('source_tie'):
                 cov['source_tie'] = proof['source_tie']
-                tb.append('source tie: harness/py2coq.py translated PGMCompiler from %s on this run (sha1 of the generated PgmSrc.v: %s); '
-                          'coq/tie/PgmEquiv.v proves it equivalent to Pgm/Ops.v; trusted: the translator, coq/tie/PyPrelude.v + PgmState.v '
-                          '(meaning of the Python subset, hand-given callees transform_points / _get_filepath / header file / close), '
-                          'coq/tie/LineTok.v (template table)' % (proof['source_tie'].get('source'), proof['source_tie'].get('generated_sha1')))
+                tb.append('source tie: harness/py2coq.py translated %s from %s on this run (sha1 of the generated file: %s); the Equiv file of '
+                          'coq/tie proves it equivalent to the hand-written model; trusted: the translator, coq/tie/PyPrelude.v + PgmState.v + '
+                          'PureState.v (meaning of the Python subset, hand-given callees transform_points / _get_filepath / header file / close), '
+                          'coq/tie/LineTok.v (template table)' % (proof['source_tie'].get('generated'), proof['source_tie'].get('source'),
+                                                                  proof['source_tie'].get('generated_sha1')))
             if proof.get('coqchk'):
                 tb.append('coqchk -o (independent checker) accepted Props/%s.vo; axioms of all loaded libraries: %s' % (
                     self.prop, ', '.join(proof['coqchk']['axioms_of_all_loaded_libraries']) or 'none'))
@@ -367,8 +368,16 @@ def run_coqchk(prop: str) -> dict:
 # Source tie: PGMCompiler's methods are translated from /repo's source on every run (harness/py2coq.py) and the equivalence
 # with the hand-written model (coq/tie/PgmEquiv.v) and the source-level statements (coq/tie/SrcProps.v) are re-checked.
 
-TIE_PROPS = {'C01', 'C03', 'C12'}
-TIE_FILES = ['PyPrelude', 'PgmState', 'LineTok', 'PgmSrc', 'PgmEquiv', 'SrcProps']
+# property -> (translator group, files to compile in order, file holding the Print Assumptions statements)
+_PGM = ('pgm', ['PyPrelude', 'PgmState', 'LineTok', 'PgmSrc', 'PgmEquiv', 'SrcProps'], 'SrcProps')
+TIES = {
+    'C01': _PGM, 'C03': _PGM, 'C12': _PGM,
+    'C13': ('SrcLp.v', ['PyPrelude', 'PgmState', 'PureState', 'SrcLp', 'EquivLp'], 'EquivLp'),
+    'C08': ('SrcNw.v', ['PyPrelude', 'PgmState', 'PureState', 'SrcNw', 'EquivNw'], 'EquivNw'),
+    'C05': ('SrcTc.v', ['PyPrelude', 'PgmState', 'PureState', 'SrcTc', 'EquivTc'], 'EquivTc'),
+    'C06': ('SrcTc.v', ['PyPrelude', 'PgmState', 'PureState', 'SrcTc', 'EquivTc'], 'EquivTc'),
+}
+TIE_PROPS = set(TIES)
 COQ_W = '-deprecated-hint-without-locality,-deprecated-instance-without-locality,-notation-overridden'
 
 
@@ -380,23 +389,25 @@ def source_tie(rep: Report, prop: str) -> dict:
     d.mkdir(parents=True)
     for f in (COQ / 'tie').glob('*.v'):
         shutil.copy(f, d / f.name)
-    src = REPO / 'src' / 'femto' / 'pgmcompiler.py'
-    res = {'ok': False, 'stage': 'translate', 'log': '', 'theorems': [], 'axioms': {}, 'source': str(src)}
-    rc, out = sh([sys.executable, '-B', str(VERIF / 'harness' / 'py2coq.py'), str(src), str(d / 'PgmSrc.v')], 120)
+    group, tie_files, stmt_file = TIES[prop]
+    src = REPO / 'src' / 'femto'
+    gen_name = 'PgmSrc.v' if group == 'pgm' else group
+    res = {'ok': False, 'stage': 'translate', 'log': '', 'theorems': [], 'axioms': {}, 'source': str(src), 'generated': gen_name}
+    rc, out = sh([sys.executable, '-B', str(VERIF / 'harness' / 'py2coq.py'), str(src), str(d), group], 120)
     if rc != 0:
         res['log'] = out[-1500:]
         rep.violation('proof/source-tie/translator',
-                      'pgmcompiler.py is no longer inside the subset the source translator reads: ' + out.strip().splitlines()[-1][:300],
-                      {'theorem': 'harness/py2coq.py (translation of PGMCompiler to coq/tie/PgmSrc.v)', 'log': out[-1500:]}, no_input=True)
+                      'the source is no longer inside the subset the source translator reads: ' + out.strip().splitlines()[-1][:300],
+                      {'theorem': f'harness/py2coq.py (translation group {group} -> {gen_name})', 'log': out[-1500:]}, no_input=True)
         return res
-    gen = (d / 'PgmSrc.v').read_text()
+    gen = (d / gen_name).read_text()
     for m in FORBIDDEN.finditer(re.sub(r'\(\*.*?\*\)', '', gen, flags=re.S)):
         res['log'] = 'forbidden word in the generated file: ' + m.group(0)
-        rep.violation('proof/source-tie/forbidden', res['log'], {'theorem': 'PgmSrc.v'}, no_input=True)
+        rep.violation('proof/source-tie/forbidden', res['log'], {'theorem': gen_name}, no_input=True)
         return res
     import hashlib as _h
     res['generated_sha1'] = _h.sha1(gen.encode()).hexdigest()
-    for name in TIE_FILES:
+    for name in tie_files:
         res['stage'] = name
         rc, out = sh(['timeout', '900', 'coqc', '-Q', str(COQ / 'theories'), 'Femto', '-Q', str(d), 'FemtoTie', '-w', COQ_W, f'{name}.v'],
                      950, cwd=d)
@@ -412,17 +423,17 @@ def source_tie(rep: Report, prop: str) -> dict:
                         lemma = mm.group(1)
                         break
             rep.violation(f'proof/source-tie/{name}',
-                          f'the methods translated from pgmcompiler.py no longer satisfy the equivalence with the model: tie/{name}.v fails at {lemma}',
+                          f'the methods translated from the source no longer satisfy the equivalence with the model: tie/{name}.v fails at {lemma}',
                           {'theorem': f'coq/tie/{name}.v: {lemma}', 'log': out[-2500:]}, no_input=True)
             return res
-        if name == 'SrcProps':
-            text = (d / 'SrcProps.v').read_text()
+        if name == stmt_file:
+            text = (d / f'{stmt_file}.v').read_text()
             printed = re.findall(r'^\s*Print Assumptions\s+([A-Za-z_][\w\']*)\s*\.', text, flags=re.M)
             blocks = [b for b in re.split(r'^(?=Closed under the global context|Axioms:)', out, flags=re.M)
                       if b.startswith('Closed under') or b.startswith('Axioms:')]
             if len(blocks) != len(printed):
                 res['log'] = f'expected {len(printed)} assumption blocks, got {len(blocks)}'
-                rep.violation('proof/source-tie/assumptions', res['log'], {'theorem': 'coq/tie/SrcProps.v'}, no_input=True)
+                rep.violation('proof/source-tie/assumptions', res['log'], {'theorem': f'coq/tie/{stmt_file}.v'}, no_input=True)
                 return res
             for nm, b in zip(printed, blocks):
                 ax = [] if b.startswith('Closed under') else [a for a in re.findall(r'^([A-Za-z_][\w.\']*)\s*(?::|$)', b, flags=re.M) if a != 'Axioms']
@@ -454,7 +465,7 @@ def static_obligations(rep: Report, prop: str, tier: str = 'quick'):
                       no_input=True)
     if prop in TIE_PROPS:
         tie = source_tie(rep, prop)
-        proof['source_tie'] = {k: tie[k] for k in ('ok', 'stage', 'theorems', 'axioms', 'source') if k in tie}
+        proof['source_tie'] = {k: tie[k] for k in ('ok', 'stage', 'theorems', 'axioms', 'source', 'generated') if k in tie}
         proof['source_tie']['generated_sha1'] = tie.get('generated_sha1')
         if tie['ok']:
             proof['theorems'] = proof['theorems'] + ['tie:' + t for t in tie['theorems']]
